@@ -6,6 +6,7 @@ import (
 	"errors"
 	"fmt"
 	"io"
+	"math"
 	"strings"
 
 	"verifharness/internal/hx"
@@ -168,7 +169,7 @@ func alphabet(cap int, full bool) []Op {
 		{K: "A", V: 0}, {K: "A", V: int64(cap)}, {K: "C"}, {K: "L"}}
 	if full {
 		a = append(a, Op{K: "N", V: 0}, Op{K: "N", V: 2}, Op{K: "S", V: -1}, Op{K: "S", V: 0}, Op{K: "S", V: 2},
-			Op{K: "S", V: 1000000000}, Op{K: "A", V: -1}, Op{K: "A", V: 1}, Op{K: "A", V: int64(cap - 1)}, Op{K: "P"})
+			Op{K: "S", V: 1000000000}, Op{K: "S", V: math.MaxInt64}, Op{K: "S", V: math.MaxInt64 - int64(cap)}, Op{K: "A", V: math.MaxInt64}, Op{K: "A", V: -1}, Op{K: "A", V: 1}, Op{K: "A", V: int64(cap - 1)}, Op{K: "P"})
 	}
 	return a
 }
@@ -284,11 +285,16 @@ func main() {
 					n = int64(r.Range(50, cap+2))
 				}
 				if r.Chance(1, 20) {
-					n = 1000000000
+					// arguments at the edge of the int range: index arithmetic with them must not wrap around
+					n = prng.Pick(r, []int64{1000000000, math.MaxInt64, math.MaxInt64 - 1, math.MaxInt64 - int64(r.Range(0, cap+2)), math.MinInt64, math.MinInt64 + 1})
 				}
 				ops = append(ops, Op{K: "S", V: n})
 			case x < 90:
-				ops = append(ops, Op{K: "A", V: int64(r.Range(-1, cap+1))})
+				ai := int64(r.Range(-1, cap+1))
+				if r.Chance(1, 25) {
+					ai = prng.Pick(r, []int64{math.MaxInt64, math.MaxInt64 - int64(r.Range(0, cap+2)), math.MinInt64})
+				}
+				ops = append(ops, Op{K: "A", V: ai})
 			case x < 93:
 				ops = append(ops, Op{K: "C"})
 			case x < 97:
